@@ -28,18 +28,22 @@ namespace
         long long nevents = 0;
         long long max_events = 200000;
         long long instr = 0;
+        int next_ctx_id = 0;
     };
     state* g = nullptr;
 
+    int id_of(const sqf::runtime::context* p)
+    {
+        auto it = g->ctx_ids.find(p);
+        if (it != g->ctx_ids.end()) { return it->second; }
+        int id = ++g->next_ctx_id;      // ids are never reused (a freed context's address may be)
+        g->ctx_ids[p] = id;
+        return id;
+    }
     int ctx_id(runtime& rt)
     {
         auto sp = rt.context_active_as_shared();
-        const sqf::runtime::context* p = sp.get();
-        auto it = g->ctx_ids.find(p);
-        if (it != g->ctx_ids.end()) { return it->second; }
-        int id = (int)g->ctx_ids.size() + 1;
-        g->ctx_ids[p] = id;
-        return id;
+        return id_of(sp.get());
     }
     std::string clip(std::string s)
     {
@@ -80,7 +84,15 @@ namespace
             g->pending_op = (*f.current())->to_string();
             if (g->trace) { emit_state("B", rt, 0); }
         } break;
-        case verif::obs::instr_done: if (g->trace) { emit_state("I", rt, arg); } break;
+        case verif::obs::instr_done:
+            if (g->trace) { emit_state("I", rt, arg); }
+            if (g->sched && g->pending_op == "CALLUNARY scriptdone")
+            {   // the moment a scriptDone poll is evaluated (its result is logged by a later instruction)
+                J e = ev("P");
+                e.set("ctx", ctx_id(rt)).set("clk", vclock::now_ms());
+                emit(e);
+            }
+            break;
         case verif::obs::frame_done: g->pending_op = "FRAMEDONE"; if (g->trace) { emit_state("F", rt, arg); } break;
         case verif::obs::err_unwind: if (g->trace) { emit_state("U", rt, arg); } break;
         case verif::obs::err_fail: if (g->trace) { emit_state("X", rt, arg); } break;
@@ -96,11 +108,18 @@ namespace
                 if (sp)
                 {
                     e.set("ctx", ctx_id(rt)).set("name", sp->name()).set("susp", sp->suspended()).set("empty", sp->empty());
+                    e.set("wake", (long long)std::chrono::duration_cast<std::chrono::milliseconds>(sp->wakeup_timestamp().time_since_epoch()).count());
+                    e.set("term", sp->terminate());
                 }
                 J order = J::arr();
-                for (auto it = rt.context_begin(); it != rt.context_end(); ++it) { order.push((*it)->name()); }
+                for (auto it = rt.context_begin(); it != rt.context_end(); ++it) { order.push(id_of(it->get())); }
                 e.set("order", order);
                 emit(e);
+            }
+            if (what == verif::obs::ctx_erase)
+            {
+                auto sp = rt.context_active_as_shared();
+                if (sp) { g->ctx_ids.erase(sp.get()); }
             }
             break;
         default: break;
@@ -161,8 +180,7 @@ static void cmd_run(const J& c)
                 if (set.has_value())
                 {
                     auto ctx = add_context(rt, *set, s.str("name", "script"), s.boolean("suspend", false));
-                    st.ctx_ids[ctx.get()] = (int)st.ctx_ids.size() + 1;
-                    e.set("ctx", st.ctx_ids[ctx.get()]);
+                    e.set("ctx", id_of(ctx.get()));
                     e.set("len", (long long)set->size());
                 }
                 emit(e);
